@@ -7,8 +7,12 @@
           defined the implementation's has the same value (SymPy may simplify a singularity away,
           so the converse is not demanded);
       (2) PyLang semantics vs CPython: exact agreement for programs inside the modelled meaning
-          ([pure]); for programs with unmodelled nodes the model may only be LESS defined. *)
-From FnSym Require Import FnToSym.
+          ([pure]); for programs with unmodelled nodes the model may only be LESS defined.
+    Programs are [mfun] lists (ConstEnv.v); a case names the constant environment [c_now] in force when
+    fn_to_sympy and the function were run, and [c_first], the tables earlier translations in the same
+    process saw (the generated-module stage rebinds module and attribute constants between two
+    translations of the same function). *)
+From FnSym Require Import FnToSym ConstEnv.
 
 Definition agree_at' (m o : option Q) : bool :=
   match m with Some x => match o with Some y => Qeq_bool x y | None => false end | None => true end.
@@ -24,18 +28,19 @@ Definition py_ok (pure : bool) (m o : option Q) : bool :=
 Definition qat (pt : list (name * Q)) (x : name) : Q := match assoc x pt with Some q => q | None => 0 end.
 
 Record ccase := mkCase {
-  c_fds : list fundef; c_i : nat; c_margs : list name; c_argnames : list name; c_pure : bool;
+  c_ms : list mfun; c_i : nat; c_margs : list name; c_argnames : list name; c_pure : bool;
+  c_first : cenv; c_now : cenv;
   c_points : list (list (name * Q)); c_obs : option (list (option Q)); c_py : list (option Q) }.
 
 Definition trans_ok (fs : facts) (c : ccase) : bool :=
-  match fn_to_sympy fs (c_fds c) (c_i c) (map SSym (c_margs c)), c_obs c with
+  match translate fs (c_first c) (c_now c) (c_ms c) (c_i c) (map SSym (c_margs c)), c_obs c with
   | None, None => true
   | Some e, Some vals => all2 (fun pt o => agree_at' (seval (val_of pt) e) o) (c_points c) vals
   | _, _ => false
   end.
 
 Definition pysem_ok (c : ccase) : bool :=
-  all2 (fun pt o => py_ok (c_pure c) (py_call (c_fds c) (c_i c) (map (qat pt) (c_argnames c))) o)
+  all2 (fun pt o => py_ok (c_pure c) (py_value (c_now c) (c_ms c) (c_i c) (map (qat pt) (c_argnames c))) o)
        (c_points c) (c_py c).
 
 (** 0 = fine, 1 = translator mismatch, 2 = Python-semantics mismatch, 3 = both *)
